@@ -15,9 +15,24 @@ import time
 
 VERIF = os.path.dirname(os.path.dirname(os.path.abspath(__file__)))
 REPO = os.environ.get("VERIF_REPO", "/repo")
-COQ = os.path.join(VERIF, "coq")
 PY = "/venv/bin/python"
-LOCK = os.path.join(VERIF, ".build.lock")
+# Builds against a tree other than /repo (seeded mutants in scratch worktrees) happen in a private copy of
+# coq/, ocaml/ and bin/, so that the main build directory always reflects /repo.
+if os.path.realpath(REPO) == "/repo":
+    WORK = VERIF
+else:
+    WORK = "/var/tmp/verif_alt_" + hashlib.sha1(os.path.realpath(REPO).encode()).hexdigest()[:10]
+COQ = os.path.join(WORK, "coq")
+LOCK = os.path.join(WORK if WORK != VERIF else VERIF, ".build.lock")
+
+
+def prepare_work():
+    if WORK == VERIF:
+        return
+    os.makedirs(WORK, exist_ok=True)
+    for d in ("coq", "ocaml", "bin"):
+        os.makedirs(os.path.join(VERIF, d), exist_ok=True)
+        subprocess.run(["rsync", "-a", "--delete", os.path.join(VERIF, d) + "/", os.path.join(WORK, d) + "/"], check=True)
 
 ALLOWED_AXIOM_PREFIXES = (
     # kernel primitives that Print Assumptions lists for PrimFloat / Uint63 developments
@@ -183,15 +198,15 @@ def build_driver():
     rc, out = make(["Extract.vo"])
     if rc != 0:
         return False, out[-3000:]
-    ml = os.path.join(VERIF, "ocaml", "model.ml")
-    exe = os.path.join(VERIF, "bin", "lasmodel")
-    drv = os.path.join(VERIF, "ocaml", "driver.ml")
+    ml = os.path.join(WORK, "ocaml", "model.ml")
+    exe = os.path.join(WORK, "bin", "lasmodel")
+    drv = os.path.join(WORK, "ocaml", "driver.ml")
     if (not os.path.exists(exe) or os.path.getmtime(exe) < os.path.getmtime(ml)
             or os.path.getmtime(exe) < os.path.getmtime(drv)):
-        os.makedirs(os.path.join(VERIF, "bin"), exist_ok=True)
+        os.makedirs(os.path.join(WORK, "bin"), exist_ok=True)
         rc, out = sh("ocamlfind ocamlopt -O3 -w -a -o ../bin/lasmodel model.mli model.ml driver.ml 2>&1 || "
                      "ocamlfind ocamlopt -w -a -o ../bin/lasmodel model.mli model.ml driver.ml",
-                     cwd=os.path.join(VERIF, "ocaml"), timeout=600)
+                     cwd=os.path.join(WORK, "ocaml"), timeout=600)
         if rc != 0:
             return False, out[-3000:]
     return True, ""
@@ -199,7 +214,7 @@ def build_driver():
 
 def run_model(lines, timeout=1200):
     """Feed command lines to the extracted model; returns list of output lines."""
-    exe = os.path.join(VERIF, "bin", "lasmodel")
+    exe = os.path.join(WORK, "bin", "lasmodel")
     p = subprocess.run([exe], input="\n".join(lines) + "\n", stdout=subprocess.PIPE, stderr=subprocess.PIPE,
                        text=True, timeout=timeout)
     out = p.stdout.split("\n")
@@ -354,8 +369,8 @@ def finish(ctx, gen_report, ob, corr_ok, disagreements, failing, checker_cmd, as
     for k, v in ctx.extra.items():
         if k != "rule":
             ev["coverage"][k] = v
-    os.makedirs(os.path.join(VERIF, "evidence"), exist_ok=True)
-    with open(os.path.join(VERIF, "evidence", pid + ".json"), "w") as f:
+    os.makedirs(os.path.join(WORK, "evidence"), exist_ok=True)
+    with open(os.path.join(WORK, "evidence", pid + ".json"), "w") as f:
         json.dump(ev, f, indent=1, default=str)
     for l in lines:
         print(l)
